@@ -4,14 +4,24 @@
 //! a raw HTTP/1.1 client sends a history of GET/HEAD requests (with/without `Range`, with an
 //! `Accept-Encoding` class) on ONE connection and reads the framed responses.
 //!
-//! range.conn  input : (L checked (L cache_on pref_full compress kind) body reprs (L (L method ae (L [range])) ...))
+//! range.conn  input : (L checked (L cache_on pref_full compress kind [status]) body reprs (L (L method ae (L range ...) [ims]) ...))
 //!             output: (L (N 0) (L reply ...)),  reply = (L (N 416)) | (L status (L [content-range]) content-length
 //!                                                                      (L [content-encoding]) accept-ranges body)
 //!             (`checked` and `reprs` are for the model only: the arithmetic of this binary and the
 //!              representations an un-ranged GET receives, as observed by `range.repr`)
-//! range.repr  input : (L (L cache_on pref_full compress kind) body)
-//!             output: (L (L (L [content-encoding]) body) ...) for the Accept-Encoding classes 0,1,2 — each from a
-//!                     fresh host and a fresh connection, one GET without Range
+//!             kind   : 0 handler page (answers `status`, default 200), 1 file read by kvarn, 2 file streamed by
+//!                      `extensions::stream_body()` (prepare_fn for every path below /f), 3 handler page requested as
+//!                      /p?x=1 with ServerCachePreference::QueryMatters (cache entry keyed by path and query), 4 handler
+//!                      page with a vary rule on `accept-language` (request field `lang`, see below)
+//!             method : 0 GET, 1 HEAD, 2 POST (content-length: 0)
+//!             range  : the values of the `Range` header LINES of the request, in order (none, one, several)
+//!             a request may have a 5th field `lang`: 0 no `Accept-Language`, n > 0 `Accept-Language: l<n>` (kind 4: a
+//!                      cached page that has no variant for this value goes through `handle_vary_missing`)
+//!             ims    : 0 none, 1 `If-Modified-Since` in the year 2100 (the client's copy is fresh), 2 in the year 1990 (stale)
+//! range.repr  input : (L (L cache_on pref_full compress kind [status]) body)
+//!             output: (L (L (L [content-encoding]) body decodes) ...) for the Accept-Encoding classes 0..5 — each from a
+//!                     fresh host and a fresh connection, one GET without Range; `decodes` = the body, decoded by a standard
+//!                     decoder for that content-encoding, is the page's body
 use crate::c00pipe;
 use crate::xval::X;
 use kvarn::prelude::*;
@@ -20,12 +30,13 @@ use std::time::Duration;
 
 const OOD: u128 = 96;
 const T: Duration = Duration::from_secs(10);
-/// Read timeouts seen by this process.  A correct server never makes a read time out; after two of them (the run is
-/// a failure already) the remaining exchanges wait 2 s instead of 10 s so that a broken framing is reported in minutes.
+/// Read timeouts seen by this process.  A correct server never makes a read time out (a loaded machine may, rarely:
+/// `run_history` tries again); after six of them the remaining exchanges wait 3 s instead of 10 s so that a broken
+/// framing is reported in minutes.
 static TIMEOUTS: std::sync::atomic::AtomicU32 = std::sync::atomic::AtomicU32::new(0);
 fn read_timeout() -> Duration {
-    if TIMEOUTS.load(std::sync::atomic::Ordering::Relaxed) >= 2 {
-        Duration::from_secs(2)
+    if TIMEOUTS.load(std::sync::atomic::Ordering::Relaxed) >= 6 {
+        Duration::from_secs(3)
     } else {
         T
     }
@@ -53,14 +64,19 @@ struct Cfg {
     pref_full: bool,
     compress: bool,
     kind: u128,
+    status: u16,
 }
 
 fn parse_cfg(x: &X) -> Option<Cfg> {
     let l = x.as_l()?;
-    if l.len() != 4 {
+    if l.len() != 4 && l.len() != 5 {
         return None;
     }
-    Some(Cfg { cache_on: l[0].as_bool()?, pref_full: l[1].as_bool()?, compress: l[2].as_bool()?, kind: l[3].as_n()? })
+    let status = match l.get(4) {
+        None => 200,
+        Some(s) => u16::try_from(s.as_n()?).ok().filter(|s| (200..600).contains(s))?,
+    };
+    Some(Cfg { cache_on: l[0].as_bool()?, pref_full: l[1].as_bool()?, compress: l[2].as_bool()?, kind: l[3].as_n()?, status })
 }
 
 fn kvp(k: &str, v: X) -> X {
@@ -68,11 +84,11 @@ fn kvp(k: &str, v: X) -> X {
 }
 
 /// (L path kind status body headers spref maxage cpref compress tuple) of `c00pipe::parse_handler`
-fn handler(path: &str, body: &[u8], spref: u128, compress: bool) -> X {
+fn handler(path: &str, status: u16, body: &[u8], spref: u128, compress: bool) -> X {
     X::L(vec![
         X::b(path),
         X::N(0),
-        X::N(200),
+        X::n(status),
         X::b(body),
         X::L(vec![X::L(vec![X::b("content-type"), X::b("text/plain")])]),
         X::N(spref),
@@ -85,20 +101,38 @@ fn handler(path: &str, body: &[u8], spref: u128, compress: bool) -> X {
 
 fn build(cfg: Cfg, body: &[u8]) -> Option<(c00pipe::Built, &'static [u8])> {
     let mut kv = vec![kvp("cache", X::bool(cfg.cache_on))];
-    let mut handlers = vec![handler("/s", SENTINEL, 0, false)];
+    let mut handlers = vec![handler("/s", 200, SENTINEL, 0, false)];
     let target: &'static [u8] = match cfg.kind {
-        0 => {
-            handlers.push(handler("/p", body, if cfg.pref_full { 2 } else { 0 }, cfg.compress));
+        0 | 4 => {
+            handlers.push(handler("/p", cfg.status, body, if cfg.pref_full { 2 } else { 0 }, cfg.compress));
+            if cfg.kind == 4 {
+                // (L (L path (L (L name xform default) ...)) ...): the lower-cased value of accept-language selects the variant
+                kv.push(kvp(
+                    "vary",
+                    X::L(vec![X::L(vec![X::b("/p"), X::L(vec![X::L(vec![X::b("accept-language"), X::N(0), X::b("none")])])])]),
+                ));
+            }
             b"/p"
         }
-        1 => {
+        3 => {
+            handlers.push(handler("/p", cfg.status, body, if cfg.pref_full { 1 } else { 0 }, cfg.compress));
+            b"/p?x=1"
+        }
+        1 | 2 => {
             kv.push(kvp("files", X::L(vec![X::L(vec![X::b("public/f.txt"), X::b(body)])])));
             b"/f.txt"
         }
         _ => return None,
     };
     kv.push(kvp("handlers", X::L(handlers)));
-    c00pipe::build_host(&X::L(kv), None).map(|b| (b, target))
+    let stream = |_: &[(String, X)], host: &mut Host, _: &Arc<c00pipe::Shared>| {
+        host.extensions.add_prepare_fn(
+            Box::new(|req, _| req.uri().path().starts_with("/f")),
+            kvarn::extensions::stream_body(),
+            kvarn::extensions::Id::new(16, "verif: stream everything below /f"),
+        );
+    };
+    c00pipe::build_host(&X::L(kv), if cfg.kind == 2 { Some(&stream) } else { None }).map(|b| (b, target))
 }
 
 #[derive(Debug)]
@@ -124,10 +158,26 @@ fn ioerr(kind: std::io::ErrorKind, what: &'static str) -> std::io::Error {
 
 impl Client {
     async fn connect(&mut self) -> std::io::Result<()> {
-        let listener = tokio::net::TcpListener::bind("127.0.0.1:0").await?;
+        // one listener per process (the histories of a process run one after the other): a listener per connection
+        // uses up the ephemeral ports of a busy machine
+        static LISTENER: OnceLock<tokio::net::TcpListener> = OnceLock::new();
+        let listener = match LISTENER.get() {
+            Some(l) => l,
+            None => {
+                let l = tokio::net::TcpListener::bind("127.0.0.1:0").await?;
+                LISTENER.get_or_init(|| l)
+            }
+        };
         let addr = listener.local_addr()?;
         let client = tokio::net::TcpStream::connect(addr).await?;
-        let (server_end, peer) = listener.accept().await?;
+        let local = client.local_addr()?;
+        let (server_end, peer) = loop {
+            // (a stale connection attempt of an earlier, failed exchange is skipped)
+            let (s, peer) = listener.accept().await?;
+            if peer == local {
+                break (s, peer);
+            }
+        };
         let desc = self.desc.clone();
         tokio::spawn(async move {
             let _ = kvarn::handle_connection(kvarn::Incoming::Tcp(server_end), peer, desc, || true).await;
@@ -138,14 +188,20 @@ impl Client {
     }
 
     /// Sends one request, reads one framed response.
-    async fn exchange(&mut self, head: bool, target: &[u8], ae: Option<&[u8]>, range: Option<&[u8]>, ims: bool) -> std::io::Result<Reply> {
+    #[allow(clippy::too_many_arguments)]
+    async fn exchange(&mut self, method: u8, target: &[u8], ae: Option<&[u8]>, ranges: &[Vec<u8>], ims: u8, lang: u8) -> std::io::Result<Reply> {
+        let head = method == 1;
         use tokio::io::{AsyncReadExt, AsyncWriteExt};
         if self.stream.is_none() {
             self.connect().await?;
         }
         let s = self.stream.as_mut().unwrap();
         let mut req = Vec::new();
-        req.extend_from_slice(if head { b"HEAD " } else { b"GET " });
+        req.extend_from_slice(match method {
+            1 => b"HEAD ",
+            2 => b"POST ",
+            _ => b"GET ",
+        });
         req.extend_from_slice(target);
         req.extend_from_slice(b" HTTP/1.1\r\nHost: localhost\r\n");
         if let Some(ae) = ae {
@@ -153,13 +209,21 @@ impl Client {
             req.extend_from_slice(ae);
             req.extend_from_slice(b"\r\n");
         }
-        if let Some(r) = range {
+        if method == 2 {
+            req.extend_from_slice(b"Content-Length: 0\r\n");
+        }
+        if lang > 0 {
+            req.extend_from_slice(format!("Accept-Language: l{lang}\r\n").as_bytes());
+        }
+        for r in ranges {
             req.extend_from_slice(b"Range: ");
             req.extend_from_slice(r);
             req.extend_from_slice(b"\r\n");
         }
-        if ims {
-            req.extend_from_slice(b"If-Modified-Since: Fri, 01 Jan 2100 00:00:00 GMT\r\n");
+        match ims {
+            1 => req.extend_from_slice(b"If-Modified-Since: Fri, 01 Jan 2100 00:00:00 GMT\r\n"),
+            2 => req.extend_from_slice(b"If-Modified-Since: Mon, 01 Jan 1990 00:00:00 GMT\r\n"),
+            _ => {}
         }
         req.extend_from_slice(b"\r\n");
         s.write_all(&req).await?;
@@ -249,6 +313,9 @@ fn ae_text(ae: u128) -> Option<Option<&'static [u8]>> {
         0 => None,
         1 => Some(b"gzip"),
         2 => Some(b"identity"),
+        3 => Some(b"br"),
+        4 => Some(b"zstd"),
+        5 => Some(b"deflate"),
         _ => return None,
     })
 }
@@ -272,15 +339,46 @@ fn fail(code: u128, idx: usize, what: String) -> X {
 }
 
 struct Req {
-    head: bool,
+    /// 0 GET, 1 HEAD, 2 POST
+    method: u8,
     ae: Option<&'static [u8]>,
-    range: Option<Vec<u8>>,
-    /// `If-Modified-Since` far in the future (only used by the probe `range.ims`; conditional requests are not part of C09's model)
-    ims: bool,
+    /// the `Range` header lines of the request
+    ranges: Vec<Vec<u8>>,
+    /// `If-Modified-Since`: 0 none, 1 far in the future, 2 far in the past
+    ims: u8,
+    /// `Accept-Language: l<lang>` (0: none)
+    lang: u8,
 }
 
-/// Runs the history on a fresh host and one connection; a sentinel GET at the end checks the framing.
+/// A read timeout is, almost always, the machine (load), not the code: the history is run again on a fresh host, up to
+/// three times.  What times out three times at the same place stays code 93 (harness trouble: the runner retries it in
+/// another process and then counts it as not executed) — except a body that stays shorter than its content-length
+/// three times: that is what the server did (code 94, a result).
 fn run_history(cfg: Cfg, body: &[u8], reqs: &[Req]) -> X {
+    let mut last = X::bad();
+    let mut short = 0;
+    for _ in 0..3 {
+        last = run_history_once(cfg, body, reqs);
+        let what = match last.as_l() {
+            Some([X::N(93), _, X::B(w)]) => w.clone(),
+            _ => return last,
+        };
+        if !what.starts_with(b"TimedOut") {
+            return last;
+        }
+        if what.ends_with(b"body shorter than content-length") {
+            short += 1;
+        }
+    }
+    if short == 3 {
+        if let X::L(l) = &mut last {
+            l[0] = X::N(94);
+        }
+    }
+    last
+}
+
+fn run_history_once(cfg: Cfg, body: &[u8], reqs: &[Req]) -> X {
     let (built, target) = match build(cfg, body) {
         Some(b) => b,
         None => return X::bad(),
@@ -290,20 +388,27 @@ fn run_history(cfg: Cfg, body: &[u8], reqs: &[Req]) -> X {
         let mut client = Client { stream: None, desc, pending: Vec::new() };
         let mut out = Vec::new();
         for (i, q) in reqs.iter().enumerate() {
-            match client.exchange(q.head, target, q.ae, q.range.as_deref(), q.ims).await {
+            match client.exchange(q.method, target, q.ae, &q.ranges, q.ims, q.lang).await {
                 Ok(r) => {
                     // framing of a GET reply: exactly content-length bytes were read; of every reply: the header is there
                     if r.content_length.is_none() {
-                        return fail(93, i, "no content-length".into());
+                        return fail(94, i, "no content-length".into());
                     }
                     out.push(x_reply(&r))
+                }
+                // what the server sent is not a framed HTTP/1.1 response (stray bytes, e.g. a body after a HEAD reply; a
+                // connection closed inside a response): a result (94).  Everything else (time-outs, socket trouble) is
+                // harness trouble (93): retried, then counted as not executed.
+                Err(e) if matches!(e.kind(), std::io::ErrorKind::InvalidData | std::io::ErrorKind::UnexpectedEof) => {
+                    return fail(94, i, format!("{:?}: {}", e.kind(), e))
                 }
                 Err(e) => return fail(93, i, format!("{:?}: {}", e.kind(), e)),
             }
         }
-        match client.exchange(false, b"/s", None, None, false).await {
+        match client.exchange(0, b"/s", None, &[], 0, 0).await {
             Ok(r) if r.status == 200 && r.body == SENTINEL && client.pending.is_empty() => {}
             Ok(r) => return fail(92, reqs.len(), format!("sentinel reply {} {:?}", r.status, String::from_utf8_lossy(&r.body))),
+            Err(e) if e.kind() == std::io::ErrorKind::TimedOut => return fail(93, reqs.len(), format!("TimedOut: sentinel: {e}")),
             Err(e) => return fail(92, reqs.len(), format!("sentinel {:?}: {}", e.kind(), e)),
         }
         X::ok(X::L(out))
@@ -326,29 +431,37 @@ fn conn(x: &X) -> X {
     let mut reqs = Vec::new();
     for r in rs {
         let q = match r.as_l() {
-            Some(q) if q.len() == 3 => q,
+            Some(q) if (3..=5).contains(&q.len()) => q,
             _ => return X::bad(),
         };
-        let (m, ae, h) = match (q[0].as_n(), q[1].as_n().and_then(ae_text), q[2].as_opt()) {
-            (Some(m @ (0 | 1)), Some(ae), Some(h)) => (m, ae, h),
+        let (m, ae, hs) = match (q[0].as_n(), q[1].as_n().and_then(ae_text), q[2].as_l()) {
+            (Some(m @ (0 | 1 | 2)), Some(ae), Some(hs)) => (m as u8, ae, hs),
             _ => return X::bad(),
         };
-        let range = match h {
-            None => None,
-            Some(v) => {
-                let v = match v.as_b() {
-                    Some(v) => v,
-                    None => return X::bad(),
-                };
-                // only values that travel unchanged through a HTTP/1.1 header line
-                let edge_ws = |c: Option<&u8>| matches!(c, Some(b' ' | b'\t'));
-                if http::HeaderValue::from_bytes(v).is_err() || edge_ws(v.first()) || edge_ws(v.last()) {
-                    return X::L(vec![X::N(OOD)]);
-                }
-                Some(v.to_vec())
+        let ims = match q.get(3).map(X::as_n) {
+            None => 0,
+            Some(Some(i @ (0 | 1 | 2))) => i as u8,
+            _ => return X::bad(),
+        };
+        let mut ranges = Vec::new();
+        for v in hs {
+            let v = match v.as_b() {
+                Some(v) => v,
+                None => return X::bad(),
+            };
+            // only values that travel unchanged through a HTTP/1.1 header line
+            let edge_ws = |c: Option<&u8>| matches!(c, Some(b' ' | b'\t'));
+            if http::HeaderValue::from_bytes(v).is_err() || edge_ws(v.first()) || edge_ws(v.last()) {
+                return X::L(vec![X::N(OOD)]);
             }
+            ranges.push(v.to_vec());
+        }
+        let lang = match q.get(4).map(X::as_n) {
+            None => 0,
+            Some(Some(l)) if l < 10 => l as u8,
+            _ => return X::bad(),
         };
-        reqs.push(Req { head: m == 1, ae, range, ims: false });
+        reqs.push(Req { method: m, ae, ranges, ims, lang });
     }
     run_history(cfg, body, &reqs)
 }
@@ -363,12 +476,16 @@ fn repr(x: &X) -> X {
         _ => return X::bad(),
     };
     let mut out = Vec::new();
-    for ae in 0..3u128 {
-        let r = run_history(cfg, body, &[Req { head: false, ae: ae_text(ae).unwrap(), range: None, ims: false }]);
-        // (L (N 0) (L (L 200 (L) len (L [enc]) ar body)))
+    for ae in 0..6u128 {
+        let r = run_history(cfg, body, &[Req { method: 0, ae: ae_text(ae).unwrap(), ranges: vec![], ims: 0, lang: 0 }]);
+        // (L (N 0) (L (L status (L) len (L [enc]) ar body)))
         let rep = r.as_l().filter(|l| l.len() == 2 && l[0] == X::N(0)).and_then(|l| l[1].as_l()).and_then(|l| l.first()).and_then(X::as_l);
         match rep {
-            Some(f) if f.len() == 6 && f[0] == X::N(200) && f[1] == X::L(vec![]) => out.push(X::L(vec![f[3].clone(), f[5].clone()])),
+            Some(f) if f.len() == 6 && f[0] == X::n(cfg.status) && f[1] == X::L(vec![]) => {
+                let enc = f[3].as_opt().flatten().and_then(X::as_b);
+                let (dec, ok) = c00pipe::decode_body(enc, f[5].as_b().unwrap_or(b""));
+                out.push(X::L(vec![f[3].clone(), f[5].clone(), X::bool(ok && dec == body)]))
+            }
             _ => return X::L(vec![X::N(91), X::n(ae), r]),
         }
     }
@@ -389,9 +506,9 @@ fn ims(x: &X) -> X {
         cfg,
         body,
         &[
-            Req { head: false, ae: None, range: None, ims: false },
-            Req { head: false, ae: None, range: Some(range.to_vec()), ims: true },
-            Req { head: false, ae: None, range: None, ims: true },
+            Req { method: 0, ae: None, ranges: vec![], ims: 0, lang: 0 },
+            Req { method: 0, ae: None, ranges: vec![range.to_vec()], ims: 1, lang: 0 },
+            Req { method: 0, ae: None, ranges: vec![], ims: 1, lang: 0 },
         ],
     )
 }
